@@ -16,7 +16,7 @@ func init() { registry["C19"] = propC19 }
 func propC19() *Property {
 	return &Property{
 		ID:          "C19",
-		Explanation: "Static dominance and table-agreement rules on package config and its consumers. Decided: (R1) config.parse returns a configuration only for an empty location, a missing file, or a decode without error AND without undecoded keys; defaults are stored before decoding into the same object; the package initialiser exits non-zero after a diagnostic on every error of parse and postprocess; (R2) for every field of Style.Colors (enumerated from the type) postprocess stores hexToAnsi of that same field with the error checked; hexToAnsi slices under len == 7 and parses each pair base 16 with the error checked; (R3) every read of a config.Parsed field anywhere in the module is in the consumer table, and for each consumer assumption (non-empty hook, positive cache size, non-negative preload amount, positive timeout) package config contains a comparison of that field whose failing edge reaches only error returns and which rejects every violating value. A new consumer without a table entry fails the check. Not decided: TOML parsing itself; that two hex digits parse to 0..255 (library semantics).",
+		Explanation: "Static dominance and table-agreement rules on package config and its consumers. Decided: (R1) config.parse returns a configuration only for an empty location, a missing file, or a decode without error AND without undecoded keys; defaults are stored before decoding into the same object; the package initialiser exits non-zero after a diagnostic on every error of parse and postprocess; (R2) for every field of Style.Colors (enumerated from the type) postprocess stores hexToAnsi of that same field with the error checked; hexToAnsi slices under len == 7 and parses each pair base 16 with the error checked; (R3) every read of a config.Parsed field anywhere in the module is in the consumer table, and for each consumer assumption (non-empty hook, positive cache size, non-negative preload amount, positive timeout) package config contains a comparison of that field whose failing edge reaches only error returns and which rejects every violating value. A new consumer without a table entry fails the check. (R4) every multiplication or shift of a value read from the configuration object by a constant inside package config is dominated by an upper bound that keeps the product inside its type. Not decided: TOML parsing itself; that two hex digits parse to 0..255 (library semantics).",
 		Assumptions: []string{"BurntSushi/toml reports unknown keys through MetaData.Undecoded", "strconv.ParseUint(s, 16, 0) of two characters is 0..255 or an error"},
 		Rules: []Rule{
 			{ID: "C19.R1", Title: "strict decoding, defaults first, exit on every error", Floor: 8, Run: c19R1},
